@@ -1,7 +1,8 @@
 #!/usr/bin/env python3
 """Writes /verif/corpus/Cxx.ops: operation lines that are executed FIRST in every run of the property (harness main.rs
-reads them; model and implementation must agree on them like on any other operation).  They are the witnesses of the
-defects found and repaired in the crate (DESIGN §8) and of seeded regressions that were missed at first, kept so that a
+reads them; model and implementation must agree on them like on any other operation).  They are witnesses of
+defects found and repaired in the crate (DESIGN §8: F1, F2, F3, F5, F9 — the others are met in the runners' own universes) and of
+seeded regressions that were missed at first, kept so that a
 regression of exactly these cases is met on every run whatever the generators do."""
 import os, unicodedata
 OUT = os.path.join(os.path.dirname(os.path.dirname(os.path.abspath(__file__))), "corpus")
@@ -35,7 +36,7 @@ corpus = {
             "# seed u18: spines of different length", "iso A A 1 2 3 A 1 3"],
     "C01": ["# seed w04: HAP head phase with a fresh counter", "reduce HAP 2 A L A A A 1 1 1 1 L 1", "reduce HAP 4 A L A A A A A 1 1 1 1 1 1 L 1",
             "# seed w01: HSP at its limit", "reduce HSP 1 A A L 1 L 1 5", "reduce HNO 1 L A A A A L L 2 L 1 1 A L 1 1 1"],
-    "C04": ["reduce HAP 2 A L A A A 1 1 1 1 L 1", "reduce HNO 2 A A L L 2 L 1 A L 1 1", "reduce NOR 0 L L A 2 A L 1 1"],
+    "C04": ["# seeds w04 / s04: limits inside nested traversals", "reduce HAP 2 A L A A A 1 1 1 1 L 1", "reduce HNO 2 A A L L 2 L 1 A L 1 1", "reduce NOR 0 L L A 2 A L 1 1"],
     "C02": ["# seed w02: third level of application-separated abstractions in the argument", "apply L L 2 L A 1 L A 1 L 3",
             "# error path leaves the receiver untouched", "apply A 1 L 1 2", "apply 0 1"],
     "C08": ["# seed w08: a UD body is not substituted for", "reduce NOR 0 A L 0 5", "reduce APP 0 A A L L 0 1 2", "apply L 0 7"],
